@@ -350,7 +350,7 @@ func shapes(maxF, maxS int) [][][]int {
 		if len(cur) == maxF {
 			return
 		}
-		for n := 1; n <= maxS; n++ {
+		for n := 0; n <= maxS; n++ { // n = 0: a file without statements (comments only)
 			s := make([]int, n)
 			for i := range s {
 				s[i] = i + 1
